@@ -27,18 +27,14 @@ def handleAuth (st : AuthState) : List String → AuthState × String
   | "cfg" :: "clp" :: n :: addrs =>
     if n.toNat? == some addrs.length then ({ st with clpWhitelist := some addrs }, "ok") else (st, "bad-op")
   | ["msg", module, name, signer] =>
-    match findHandler module name with
-    | some h => let (st', o) := stepMsg st h signer none; (st', showOutcome o)
-    | none => (st, "bad-op")
+    let (st', o) := stepMsg st (specHandler module name) signer none; (st', showOutcome o)
   | ["msg", module, name, signer, role, addr] =>
-    match findHandler module name with
-    | some h => let (st', o) := stepMsg st h signer (some (role, addr)); (st', showOutcome o)
-    | none => (st, "bad-op")
+    let (st', o) := stepMsg st (specHandler module name) signer (some (role, addr)); (st', showOutcome o)
   | ["chk", pred, _tag, module, name, signer, res, changed] =>
     if pred.startsWith "c08.guard" then
-      match findHandler module name, parseOutcome res, parseBool changed with
-      | some h, some r, some c => (st, toString (refusedUnchanged st h signer r c))
-      | _, _, _ => (st, "bad-op")
+      match parseOutcome res, parseBool changed with
+      | some r, some c => (st, toString (refusedUnchanged st (specHandler module name) signer r c))
+      | _, _ => (st, "bad-op")
     else (st, "bad-op")
   | _ => (st, "bad-op")
 
